@@ -69,6 +69,8 @@ class Sample:
         }
         self._indel_sites_eqs = {}
         """indel equivalents (used for long reads because indelpost is too slow)"""
+        self._indel_phase_eqs = {}
+        """alignment-level spellings of the database indels (used for phasing)"""
 
         self._multi_sites = {
             m.pos: m.op
@@ -480,8 +482,10 @@ class Sample:
 
             v = Variant(rname, p + 1, o1, o2, ref)  # type: ignore
 
-            if long_reads or not self.profile.indelpost:
-                # Speed-up: just generate equivalent indels, no need for the realignment
+            # An aligner may report an indel that lies in a repeat at any of its
+            # equivalent positions: remember all spellings of the database indel
+            eqs = {}
+            try:
                 for ev in v.generate_equivalents():
                     np, no = ev.pos - 1, ""
                     if len(ev.ref) < len(ev.alt) and ev.alt.startswith(ev.ref):
@@ -491,7 +495,14 @@ class Sample:
                         np += len(ev.alt)
                         no = "del" + ev.ref[len(ev.alt) :]
                     if no:
-                        self._indel_sites_eqs[np, no] = (pos, op)
+                        eqs[np, no] = (pos, op)
+            except (IndexError, ValueError):
+                pass
+            self._indel_phase_eqs.update(eqs)
+
+            if long_reads or not self.profile.indelpost:
+                # Speed-up: just use the equivalent indels, no need for the realignment
+                self._indel_sites_eqs.update(eqs)
                 continue
 
             try:
@@ -655,6 +666,7 @@ class Sample:
 
         phase = self.phases.setdefault(fragment, {})
         dump_arr = []
+        indels = []
         start, s_start = ref_start, 0
         prev_q = 10
         for op, size in cigar:
@@ -663,6 +675,7 @@ class Sample:
                 for i in range(size):
                     muts[start + i, "-"].append((bin_quality(mq), bin_quality(prev_q)))
                 dump_arr.append(mut)
+                indels.append(mut)
                 if start in self.phaseable:
                     phase[start] = mut[1]
                 if self._indel_sites_eqs and mut in self._indel_sites_eqs:
@@ -674,6 +687,7 @@ class Sample:
                 muts[mut].append((bin_quality(mq), bin_quality(q)))
                 prev_q = q
                 dump_arr.append(mut)
+                indels.append(mut)
                 # catalogued insertions are anchored at the base they follow
                 if start - 1 in self.phaseable:
                     phase[start - 1] = mut[1]
@@ -701,6 +715,14 @@ class Sample:
                     prev_q = q
                 start += size
                 s_start += size
+
+        # An indel reported at another position of its repeat belongs to the database
+        # indel it spells: phase it there (the bases in between read as reference)
+        for mut in indels:
+            if mut in self._indel_phase_eqs:
+                pos, op = self._indel_phase_eqs[mut]
+                if pos in self.phaseable:
+                    phase[pos] = op
 
         dump_arr_pos = {p for p, _ in dump_arr}
         for pos, op in self._multi_sites.items():
